@@ -46,7 +46,7 @@ void run_case(ByteSource& s, CaseInfo& ci) {
   const Problem* P = problems.back().get();
   Model m;
   unsigned mask = s.choose(32); bool any = true;
-  S->set_mask(mask);
+  S->set_mask(mask, s.choose(120));
   int stepper = 2; bool adaptive = true; unsigned nsteps = 100;
   S->Set_GSL_step(STEPPERS[stepper]); S->Set_rel_error(1e-10); S->Set_abs_error(1e-10); S->Set_h(1e-4); S->Set_h_max(0.05);
   init_states(s, *P, *S, m);
@@ -106,10 +106,10 @@ void run_case(ByteSource& s, CaseInfo& ci) {
       }
       check_state("Evolve");
     } else if (op == 4) {  // toggle one switch
-      unsigned bit = 1u << s.choose(5); mask ^= bit; S->set_mask(mask); if (!any) S->Set_AnyNumerics(false);
+      unsigned bit = 1u << s.choose(5); mask ^= bit; S->set_one(bit, (mask & bit) != 0); if (!any) S->Set_AnyNumerics(false);  // only that switch's setter is called
       hist += fmt("mask=%u ", mask); events_between++;
     } else if (op == 5) {  // AnyNumerics
-      any = !any; if (any) S->set_mask(mask); else S->Set_AnyNumerics(false);
+      any = !any; if (any) S->set_mask(mask, s.choose(120)); else S->Set_AnyNumerics(false);
       hist += fmt("AnyNumerics=%d ", (int)any); events_between++;
     } else if (op == 6) {  // numerics settings
       stepper = (int)s.choose(6); adaptive = stepper == 5 ? true : s.flag();
